@@ -212,6 +212,12 @@ class EllipseFitter:
                 return Isophote(minimum_amplitude_sample, i + 1, valid=True,
                                 stop_code=1)
 
+            # a zero (or non-finite) gradient cannot be used to correct
+            # the geometry (e.g., nearest-neighbor sampling of a few
+            # central pixels); handle it like a gradient failure.
+            if not np.isfinite(sample.gradient) or sample.gradient == 0.0:
+                return Isophote(sample, i + 1, valid=True, stop_code=-1)
+
             # pick appropriate corrector code.
             corrector = _CORRECTORS[largest_harmonic_index]
 
